@@ -2,8 +2,8 @@
    exactly after the matching close.  Statements only.
    Model: TextReader (sk_scan, skip_container_loop, suv_scan, skip_unquoted_value_loop) over BufWin.
    Specification: TextSkipRef (sk_scan_bytes, sref / skip_ref, skip_need, tok_count, uv_ref). *)
-From JV Require Import Bytes Tables U64Swar BufWin TextTok TextReader TextRef TextSkipRef.
-From JV.proofs Require Import BufWinProofs TextReaderMainProofs TextSkipProofs TextSkipStreamProofs.
+From JV Require Import Bytes Tables U64Swar BufWin TextTok TextReader TextRef TextSkipRef TextTape TextDoc.
+From JV.proofs Require Import BufWinProofs TextReaderMainProofs TextSkipProofs TextSkipStreamProofs TextSkipTokProofs.
 Open Scope nat_scope.
 
 (* 1. The 8-byte SWAR step (contains_zero_byte for quote / hash / brace detection, count_chunk for
@@ -98,3 +98,62 @@ Example C09_text_ex :
   end /\
   skip_container 200 (C09_text_ex_after_open 2) = Err E_BufferFull.
 Proof. vm_compute. repeat split; reflexivity. Qed.
+
+(* 4. The property's own wording.  [token_skip s] reads tokens with the reference tokenizer of C07
+   (TextRef.tk, which the streaming reader equals by C07_stream_eq_tok) from just after an Open,
+   counts Open and Close, and stops after the Close that brings the depth to 0; it returns the
+   tokens read and the input that remains.  For EVERY byte string: if token counting finds the
+   matching close and no unquoted token on the way holds a brace, a double quote or a hash
+   (tok_plain), the byte skipper lands on exactly the same remaining input.  Braces, hashes,
+   escaped quotes and backslashes inside quoted scalars and anything inside comments are covered
+   without any hypothesis.  Together with 3: the streaming skip_container leaves the stream at the
+   token that follows the matching close. *)
+Theorem C09_text_skip_is_token_counting : forall s toks r,
+  token_skip s = Some (toks, r) -> forallb tok_plain toks = true ->
+  length r <= length s /\ skip_ref s = Some (length s - length r).
+Proof. exact token_skip_is_skip_ref. Qed.
+Print Assumptions C09_text_skip_is_token_counting.
+
+(* the hypothesis tok_plain cannot be dropped -- FINDINGS, both replayed on the Rust code
+   (tr.skip): the tokenizer takes  xQy  (a double quote inside a bare word; Q = double quote) and
+   the interpolated expression  @[ } ]  as ONE unquoted token, the skipper sees a quote opening /
+   a closing brace.
+     a={ xQy } zQw } q=1     token counting: the container ends at the first close (next token zQw);
+                              skip_container: after the second close (next token q)
+     a={ @[ } ] b } q=1      token counting: the container ends at the last close (next token q);
+                              skip_container: after the brace inside @[ } ] (next token the bracket) *)
+Theorem C09_text_quote_in_word_refuted : exists s toks r n,
+  token_skip s = Some (toks, r) /\ skip_ref s = Some n /\ n <> length s - length r.
+Proof.
+  exists [32;120;34;121;32;125;32;122;34;119;32;125;32;113;61;49]%N.
+  eexists. eexists. eexists. split; [vm_compute; reflexivity|]. split; [vm_compute; reflexivity|]. vm_compute. discriminate.
+Qed.
+Theorem C09_text_varexpr_brace_refuted : exists s toks r n,
+  token_skip s = Some (toks, r) /\ skip_ref s = Some n /\ n <> length s - length r.
+Proof.
+  exists [32;64;91;32;125;32;93;32;98;32;125;32;113;61;49]%N.
+  eexists. eexists. eexists. split; [vm_compute; reflexivity|]. split; [vm_compute; reflexivity|]. vm_compute. discriminate.
+Qed.
+
+(* non-vacuity of 4 on the rendering of a well-formed document (TextDoc):
+     a = { # }<LF>Qk}Q = Qx\Q{Q } z = 1
+   a quoted key holding a close, a quoted value holding an escaped quote and an open, a comment
+   holding a close.  From just after the Open (offset 5) token counting reads 4 tokens and leaves
+   " z = 1"; all tokens are plain; skip_ref lands on the same 6 remaining bytes. *)
+Definition C09_text_ex_doc : doc :=
+  FCons (Field Unq [97%N] (Some Equal)
+           (VObject (FCons (Field Quo [107;125]%N (Some Equal) (VScalar Quo [120;92;34;123]%N)) FNil) VNil))
+ (FCons (Field Unq [122%N] (Some Equal) (VScalar Unq [49%N])) FNil).
+Definition C09_text_ex_layout : layout :=
+  mkLayout false (fun i => if Nat.eqb i 0 then [] else if Nat.eqb i 3 then [32;35;32;125;10]%N else if Nat.eqb i 10 then [] else [32%N]).
+Example C09_text_ex_render :
+  wf_doc C09_text_ex_doc /\
+  let s := render C09_text_ex_doc C09_text_ex_layout in
+  nth_error s 4 = Some 123%N /\
+  exists toks r, token_skip (skipn 5 s) = Some (toks, r) /\ length toks = 4 /\
+    forallb tok_plain toks = true /\ r = [32;122;32;61;32;49]%N /\
+    skip_ref (skipn 5 s) = Some (length (skipn 5 s) - 6).
+Proof.
+  split; [reflexivity|]. cbv zeta. split; [reflexivity|]. eexists. eexists.
+  split; [vm_compute; reflexivity|]. repeat split; reflexivity.
+Qed.
